@@ -37,6 +37,7 @@ import numpy
 import z3
 
 INF = float("inf")
+NONFINITE_IS_ERROR = [False]
 WIDTH = {bool: 0, int: 1, float: 2}
 TYPES = (bool, int, float)
 
@@ -547,6 +548,9 @@ def binop(op, a, b):
             if isinstance(op, ast.Sub):
                 return float(u) if first else -float(u)
             CTX.err(True, "non-finite arithmetic")
+            if NONFINITE_IS_ERROR[0]:
+                # the caller has an obligation that error guards are unreachable and replays non-finite results
+                raise PathEnd()
             raise Unsupported("inf in mult/div")
     ta, tb, y = arith2(a, b)
     fg = zor(float_guard(a), float_guard(b))
@@ -859,6 +863,11 @@ def subscript(base, idx):
         raise Unsupported(f"symbolic subscript into {type(base).__name__}")
     out = None
     conds = []
+    if isinstance(base, (list, tuple, numpy.ndarray)) and any(_is_inf(v) or (pytype(v) is float and v != v) for k, v in items):
+        # entries that have no term (+-inf thresholds, NaN): one path per position instead of a merged value
+        CTX.err(zor(ti < -n, ti >= n), "IndexError")
+        j = decide(len(items), lambda j: ti == items[j][0])
+        return items[j][1]
     for k, v in reversed(items):
         c = ti == (int(k) if pytype(k) is not float else const_real(k))
         conds.append(c)
